@@ -1124,7 +1124,8 @@ def apply_defect(v, d, rng):
             return False
         v["vdims"] = "None"
     elif d == "sub-int-table":
-        if v["subs"] is None or any(F(x).denominator != 1 for row in v["subs"]["rows"] for x in row):
+        if v["subs"] is None or any(F(x).denominator != 1 or abs(F(x)) >= 2 ** 62
+                                    for row in v["subs"]["rows"] for x in row):
             return False
         v["subs"]["tk"] = "i"
     elif d == "sub-float-table":
